@@ -830,10 +830,22 @@ static int runServer(const vf::Args &args, bool socketMode)
       Obs o = d.run(c, segs[si], false);
       d.shortWait = false;
       peak = std::max(peak, o.peak);
+      if (c.kind == "m")
+      {
+        // mutated streams: robustness only (hang / exception / memory / sanitizers); what a garbage
+        // stream yields is not compared across segmentations
+        if (ref.exc.empty() && !o.exc.empty()) ref.exc = o.exc;
+        continue;
+      }
       if (o.canon(vp) == refCanon) continue;
       Obs o2 = d.run(c, segs[si], true);
       peak = std::max(peak, o2.peak);
-      if (o2.canon(vp) == refCanon) { rerunOk++; continue; }
+      if (o2.canon(vp) == refCanon)
+      {
+        if (rerunOk++ < 4)
+          vf::out().line("{\"t\":\"flaky\",\"mode\":" + vf::jstr(modeName) + ",\"id\":" + vf::jstr(c.id) + ",\"cuts\":" + cutsJson(segs[si].cuts) + ",\"first\":" + o.json() + "}");
+        continue;
+      }
       // the reference itself may have been the odd one out: confirm it once more
       Obs r2 = d.run(c, segs[0], true);
       if (r2.canon(vp) == o2.canon(vp)) { rerunOk++; ref = r2; refCanon = r2.canon(vp); continue; }
@@ -1179,12 +1191,24 @@ static int runClient(const vf::Args &args)
       if (ndiff >= 3) { capped = true; break; }
       CObs o = d.run(c, segs[si], false);
       peak = std::max(peak, o.peak);
+      if (c.kind == "m") continue; // robustness only
       if (o.canon() == refCanon) continue;
       CObs o2 = d.run(c, segs[si], true);
       peak = std::max(peak, o2.peak);
-      if (o2.canon() == refCanon) { rerunOk++; continue; }
+      if (o2.canon() == refCanon)
+      {
+        if (rerunOk++ < 4)
+          vf::out().line("{\"t\":\"flaky\",\"mode\":\"client-socket\",\"id\":" + vf::jstr(c.id) + ",\"cuts\":" + cutsJson(segs[si].cuts) + ",\"first\":" + o.json() + "}");
+        continue;
+      }
       CObs r2 = d.run(c, segs[0], true);
-      if (r2.canon() == o2.canon()) { rerunOk++; ref = r2; refCanon = r2.canon(); continue; }
+      if (r2.canon() == o2.canon())
+      {
+        if (rerunOk++ < 4)
+          vf::out().line("{\"t\":\"flaky\",\"mode\":\"client-socket\",\"id\":" + vf::jstr(c.id) + ",\"cuts\":[],\"first\":" + ref.json() + "}");
+        ref = r2; refCanon = r2.canon();
+        continue;
+      }
       ndiff++;
       if (ndiff <= 4)
       {
